@@ -157,6 +157,24 @@ def _stratum(name, r):
         e = _t(r, "w4", r.choice(["small", "just_above"]), dtype="FLOAT")
         f = dict(e, name="w5", payload_of="w4")
         T = [a, _t(r, "w6", "small"), b, c, d, e, f]
+    elif name == "scoped_same_names":
+        # sibling scopes may reuse a name: the then- and else-branch (and the loop body) each own an initializer called "c"
+        # (and "d") with DIFFERENT contents; a save must neither mix them up in the caller's model nor in the files
+        d1 = r.choice(_NUM[:10])
+        T = [_t(r, "w0", r.choice(["medium", "small"])),
+             dict(_t(r, "c", "medium", dtype=d1, where="then"), payload_of="c@then"),
+             dict(_t(r, "c", r.choice(["medium", "just_above", "small"]), dtype=d1, where="else"), payload_of="c@else"),
+             dict(_t(r, "d", "small", dtype="FLOAT", where="then"), payload_of="d@then"),
+             dict(_t(r, "d", "medium", dtype="FLOAT", where="else", kind=r.choice(["mem", "ext"])), payload_of="d@else"),
+             dict(_t(r, "c", "just_above", where="loop"), payload_of="c@loop")]
+        if r.random() < 0.5:
+            T.append(dict(_t(r, "c", "medium"), payload_of="c@main"))     # ... and the main graph as well
+    elif name == "subgraph_only":
+        # every initializer lives in an If branch; the main graph owns none (in-memory and already-external ones)
+        d1 = r.choice(_NUM[:10])
+        T = [_t(r, "t0", "medium", dtype=d1, where="then"), _t(r, "f0", r.choice(["medium", "small"]), dtype=d1, where="else"),
+             _t(r, "t1", r.choice(["medium", "just_above"]), dtype="FLOAT", where="then", kind="ext"),
+             _t(r, "f1", "medium", dtype="FLOAT", where="else", kind=r.choice(["mem", "ext"]))]
     elif name == "uninit_main":
         T = [_t(r, "w0", "medium"), _t(r, "u0", "medium", kind="uninit"), _t(r, "w1", r.choice(["big", "medium"]), dtype="FLOAT"),
              _t(r, "w2", "small")]
@@ -193,7 +211,7 @@ def _stratum(name, r):
 
 STRATA = ["inline_only", "threshold", "big_one", "big_two", "external_other_file", "subgraph", "verbose", "exotic",
           "uninit_main", "uninit_main_verbose", "uninit_subgraph", "uninit_unconsumed", "torch", "tied",
-          "reload_same_name", "reload_other_name"]
+          "reload_same_name", "reload_other_name", "scoped_same_names", "subgraph_only"]
 # "reload_same_dir" (saving over the very data file that backs the model's own external tensors) is deliberately NOT generated:
 # onnx_ir invalidates tensors whose backing file is overwritten, and the property sentence does not say what "still backed by
 # their original data" means when the destination IS the original data (see ASSUMPTIONS)
